@@ -158,15 +158,16 @@ PROPS = {
     assumptions=['Go scheduler / sync.Cond semantics are not modelled (partial): the theorems are about the wait/broadcast discipline'],
  ),
  'C07': dict(
-    group='shim', only=['hist'], ops=['hist'],
-    klass=lambda c: 'hist:noup' + c['args'][0] + ':ops' + str(min(25, 5 * (c['args'][3].count(';') // 5))) + ('+faults' if '!' in c['args'][3] else ''),
+    group='shim', only=['hist', 'vtime'], ops=['hist', 'vtime'],
+    klass=lambda c: 'vtime' if c['op'] == 'vtime' else 'hist:noup' + c['args'][0] + ':ops' + str(min(25, 5 * (c['args'][3].count(';') // 5))) + ('+faults' if '!' in c['args'][3] else ''),
     modules=['Ysshra.Props.C07', 'Ysshra.Bridge.SnapShim', 'Ysshra.Bridge.Validation'],
     theorem_files=['Props/C07.lean', 'Bridge/SnapShim.lean', 'Bridge/Validation.lean'],
     anchors=['agent/shimagent/', 'sshutils/cert/validation.go'],
     n=dict(quick=500, thorough=20000),
     timeout=dict(quick=900, thorough=3400),
-    trivial=lambda c: c['args'][3].count(';') < 2,
-    rule='histories of 1..25 operations (list, signers, sign, add, add-hardware-certificate, remove, remove-all, lock/unlock with right / wrong / empty passphrases, and add / remove / remove-all done directly on the underlying keyring) against a real shimagent.Server over a harness-served x/crypto keyring, both upstream modes, 0..4 initial identities; keys Ed25519 / ECDSA P-256 / RSA-2048; certificates signed by a harness CA with validity windows past / current / future / forever / zero / start-above-MaxInt64 / end-near-2^64 / lapsing during the history (the harness sleeps across it), KeyIDs valid YSSHCA of several types, unsupported version, inconsistent flags, missing member, no applicable type, free text, empty; faults per operation: failure reply / malformed reply per request kind, oversized frame, connection closed, failing listing during construction. The Unix time read before each operation and what keyid.Unmarshal / cert.Label say about each certificate travel on the line. Non-trivial = history with at least 3 operations; distinct = distinct argument fields.'
+    trivial=lambda c: c['op'] == 'hist' and c['args'][3].count(';') < 2,
+    rule='vtime: ValidateSSHCertTime itself at one second before / at / after each end of the window, for window ends around 0, 2^31, 2^32, 2^63 and 2^64. '
+         'histories of 1..25 operations (list, signers, sign, add, add-hardware-certificate, remove, remove-all, lock/unlock with right / wrong / empty passphrases, and add / remove / remove-all done directly on the underlying keyring) against a real shimagent.Server over a harness-served x/crypto keyring, both upstream modes, 0..4 initial identities; keys Ed25519 / ECDSA P-256 / RSA-2048; certificates signed by a harness CA with validity windows past / current / future / forever / zero / start-above-MaxInt64 / end-near-2^64 / lapsing during the history (the harness sleeps across it), KeyIDs valid YSSHCA of several types, unsupported version, inconsistent flags, missing member, no applicable type, free text, empty; faults per operation: failure reply / malformed reply per request kind, oversized frame, connection closed, failing listing during construction. The Unix time read before each operation and what keyid.Unmarshal / cert.Label say about each certificate travel on the line. Non-trivial = history with at least 3 operations; distinct = distinct argument fields.'
          ' The generator is state-aware: set-up prefixes register hardware certificates for keys really held (sometimes with the same certificate upstream), operations mostly name blobs the history touched before, locked phases last several operations, passphrases include ones longer than 64 bytes sharing a long prefix. A disagreement with the state machine is attributed to C07 / C08 / C09 / C10 by what differs at the first differing operation (Drv/Shim.classify).'
          ' Validity windows also next to 2^31, 2^32 and 2^63; KeyID kinds next to the consistency rules (headless / nonce with touch policy 0, -1, 17; touch policy 4, 258); passphrase lengths on and next to powers of two up to 65536; raw-forward requests (code 200, echoed by the test agent) with body sizes on and next to powers of two and replies failure / oversize headers 0x7fffffff, 0x80000000, 0xffffffff, 16 MiB+1 / closed; every operation runs under a 20 s watchdog. Whether a KeyID is a YSSHCA KeyID is decided by the C05 decoder model on its token tree.',
     trusted_base=["x/crypto keyring and agent client are the underlying agent (modelled as Shim.UAgent; the model is compared with the real keyring's content after every operation)", 'keyid.Unmarshal and cert.Label verdicts per certificate are oracles on the line (C05 / C19 decide them)', 'SHA-256 as map key is taken collision-free; ssh marshalling injective', 'wall-clock seconds are read by the harness just before each call (windows keep a margin of >= 2 s from the clock except in the lapse cases, which sleep 5 s)'],
